@@ -29,6 +29,13 @@ func c04Probes() []time.Time {
 		ps = append(ps, t.Add(-time.Second), t.Add(-time.Nanosecond), t, t.Add(time.Nanosecond), t.Add(time.Second))
 	}
 	ps = append(ps, c04T0.AddDate(100, 0, 0))
+	// the same 22 instants expressed in two other time zones: validity is a property of the instant
+	n := len(ps)
+	for _, z := range []*time.Location{time.FixedZone("east", 14*3600), time.FixedZone("west", -12*3600+1800)} {
+		for _, p := range ps[:n] {
+			ps = append(ps, p.In(z))
+		}
+	}
 	return ps
 }
 
@@ -78,9 +85,9 @@ func c04ChainSub(name, dir string, qn, tn int) *engine.Sub {
 	probes := c04Probes()
 	return &engine.Sub{
 		Name: name,
-		Rule: "every assignment of windows {nbf in -,t1,t3} x {exp in -,t2,t4} to each link, invocation expiry in {-,t2,t4}, probed at 22 instants (1s / 1ns before, on, after every bound; far past/future) through the verif-tagged export of verifyTimeBoundAt; exactly-on-a-bound is don't-care; non-trivial = at least one bound present",
+		Rule: "every assignment of windows {nbf in -,t1,t3} x {exp in -,t2,t4} to each link, invocation expiry in {-,t2,t4}, probed at 22 instants x 3 time zones (1s / 1ns before, on, after every bound; far past/future) through the verif-tagged export of verifyTimeBoundAt; exactly-on-a-bound is don't-care; non-trivial = at least one bound present",
 		Bound: func(t string) string {
-			return fmt.Sprintf("chains of 1..%d links, 9 windows per link, 3 invocation expiries, 22 probe instants", tierN(t, qn, tn))
+			return fmt.Sprintf("chains of 1..%d links, 9 windows per link, 3 invocation expiries, 66 probes (22 instants x 3 zones)", tierN(t, qn, tn))
 		},
 		Setup: func(string) error { chainInit(); return nil },
 		Gen: func(tier string, emit func(any) bool) {
@@ -195,8 +202,8 @@ func c04SingleSub(dir string) *engine.Sub {
 	return &engine.Sub{
 		Name:   "single-token-window",
 		Repeat: true,
-		Rule:   "IsValidAt of every delegation window (9) and invocation expiry (3), constructed and after seal->unseal, at 22 probe instants; strictly inside => valid, strictly outside => invalid, on a bound don't care; non-trivial = at least one bound present",
-		Bound:  func(string) string { return "9+3 windows x {constructed, sealed+unsealed} x 22 probes" },
+		Rule:   "IsValidAt of every delegation window (9) and invocation expiry (3), constructed and after seal->unseal, at 22 probe instants, each expressed in UTC and in two other time zones (+14h, -11h30); strictly inside => valid, strictly outside => invalid, on a bound don't care; non-trivial = at least one bound present",
+		Bound:  func(string) string { return "9+3 windows x {constructed, sealed+unsealed} x 66 probes (22 instants x 3 zones)" },
 		Setup:  func(string) error { chainInit(); return nil },
 		Gen: func(tier string, emit func(any) bool) {
 			for _, sealed := range []bool{false, true} {
